@@ -314,7 +314,8 @@ class PdoMap:
         if can_id == self.cob_id and not is_transmitting:
             with self.receive_condition:
                 self.is_received = True
-                self.data = data
+                # Own copy: maps sharing a COB-ID are handed the same buffer
+                self.data = bytearray(data)
                 if self.timestamp is not None:
                     self.period = timestamp - self.timestamp
                 self.timestamp = timestamp
